@@ -1,6 +1,10 @@
 -- Root of the `XrlCpp` library: model of the C++ wrapper protocol of xraylib (property C18).
 import XrlCpp.Hand.Cpp
 import XrlCpp.Hand.Struct
+import XrlCpp.Hand.Value
 import XrlCpp.Spec.Table
+import XrlCpp.Spec.Value
 import XrlCpp.Lemmas.PE
+import XrlCpp.Lemmas.Table
+import XrlCpp.Lemmas.Value
 import XrlCpp.Gen.Tables
